@@ -7,7 +7,8 @@
  * file from the scratch tree (-I<tree>/src/drivers/ncmpio).
  *
  *   usage: c04_unit <request-file> <output-prefix>
- *   request line:  <path> <ncp->chunk> <safe_mode>
+ *   request line:  <path> <ncp->chunk> <safe_mode> [<hcoll>]     hcoll = 1: NC_HCOLL set (hint romio_no_indep_rw=true),
+ *                  the header is then read with MPI_File_read_at_all when there is more than one rank
  *   answer line (file <output-prefix>.<rank>, one per request, same syntax as `DEC` of lean/Driver/C04.lean):
  *       OK <schema with vsize := recomputed len> | xsz begin_var begin_rec recsize num_rec_vars
  *       ERR <code>
@@ -51,10 +52,10 @@ int main(int argc, char **argv) {
     out = fopen(outname, "w");
     if (!in || !out) { fprintf(stderr, "cannot open\n"); MPI_Abort(MPI_COMM_WORLD, 2); }
     while (fgets(line, sizeof line, in)) {
-        int chunk, safe, err, i, j;
+        int chunk, safe, hcoll = 0, err, i, j;
         MPI_File fh;
         NC *ncp;
-        if (sscanf(line, "%4095s %d %d", path, &chunk, &safe) != 3) continue;
+        if (sscanf(line, "%4095s %d %d %d", path, &chunk, &safe, &hcoll) < 3) continue;
         alarm(10);   /* per-request watchdog: a hang is a result (the driver script restarts after it) */
         err = MPI_File_open(MPI_COMM_WORLD, path, MPI_MODE_RDONLY, MPI_INFO_NULL, &fh);
         if (err != MPI_SUCCESS) { fprintf(out, "OPENFAIL\n"); continue; }
@@ -66,6 +67,7 @@ int main(int argc, char **argv) {
         ncp->independent_fh = fh;
         ncp->chunk = chunk;
         ncp->safe_mode = safe;
+        if (hcoll) fSet(ncp->flags, NC_HCOLL);
         ncp->path = path;
         err = ncmpio_hdr_get_NC(ncp);
         if (err != NC_NOERR) fprintf(out, "ERR %d\n", err);
